@@ -77,13 +77,15 @@ std::string handle(const std::vector<std::string> &a) {
   }
   if (c == "hexe" && need(2)) {
     Bytes raw = unhex(a[2]); Blk in(raw);
-    return "ok " + hex(util::string::RawDataToHexStr(in.u8(), (uint16_t)in.n, a[1] == "1", ""));
+    std::string delim = a.size() > 3 ? str_of(unhex(a[3])) : std::string();        // hexe <upper> <hex> [delimiter-hex]
+    return "ok " + hex(util::string::RawDataToHexStr(in.u8(), (uint16_t)in.n, a[1] == "1", delim));
   }
   if (c == "hexd" && need(1)) {
     Bytes t = unhex(a[1]);
     Bytes v;
-    size_t r = util::string::HexStrToRawData(str_of(t), v);
-    Blk out(t.size() / 2);
+    std::string delim = a.size() > 2 ? str_of(unhex(a[2])) : std::string();        // hexd <hex text> [delimiter-hex]
+    size_t r = util::string::HexStrToRawData(str_of(t), v, delim);
+    Blk out(delim.empty() && t.size() / 2 <= 65535 ? t.size() / 2 : 0);
     size_t r2 = out.n ? util::string::HexStrToRawData(str_of(t), out.u8(), (uint16_t)out.n) : 0;
     (void)r2;
     return "ok " + hex(v) + " " + std::to_string(r);
